@@ -951,3 +951,291 @@ Proof.
     by (rewrite !map_map; reflexivity).
   rewrite (shape_props _ _ S), (shape_layout bin _ _ 0%nat S). exact B.
 Qed.
+
+(* ================= reader construction with user-named (fresh) scalar properties ================= *)
+Definition pname_fresh (ms : list string) (p : prop) : Prop :=
+  match p with PScalar _ n => ~ In n ms | PList _ _ _ => False end.
+
+Lemma seqb_neq a b : a <> b -> seqb a b = false.
+Proof. intros H. unfold seqb. apply String.eqb_neq. exact H. Qed.
+Lemma seqb_refl a : seqb a a = true.
+Proof. unfold seqb. apply String.eqb_refl. Qed.
+
+Lemma scan_members_fresh name ms : forall offs ty cur t, ~ In name ms -> List.length offs = List.length ms ->
+  scan_members ms offs ty cur t name = (offs, ty).
+Proof.
+  induction ms as [|m ms IH]; intros offs ty cur t Hn Hl.
+  - destruct offs; [reflexivity|discriminate].
+  - destruct offs as [|o os]; [discriminate|]. cbn [scan_members].
+    rewrite seqb_neq by (intros ->; apply Hn; left; reflexivity).
+    rewrite IH; [reflexivity|intros H; apply Hn; right; exact H|cbn in Hl; lia].
+Qed.
+
+Lemma scan_members_length name ms : forall offs ty cur t, List.length offs = List.length ms ->
+  List.length (fst (scan_members ms offs ty cur t name)) = List.length ms.
+Proof.
+  induction ms as [|m ms IH]; intros offs ty cur t Hl.
+  - destruct offs; reflexivity.
+  - destruct offs as [|o os]; [discriminate|]. cbn [scan_members].
+    destruct (seqb name m).
+    + specialize (IH os (match ty with Some _ => ty | None => Some t end) cur t ltac:(cbn in Hl; lia)).
+      destruct (scan_members ms os _ cur t name) as [os' ty'']. cbn [fst List.length] in *. lia.
+    + specialize (IH os ty cur t ltac:(cbn in Hl; lia)).
+      destruct (scan_members ms os ty cur t name) as [os' ty'']. cbn [fst List.length] in *. lia.
+Qed.
+
+Lemma scan_props_fresh bin ms T : forall cur offs ty, Forall (pname_fresh ms) T -> List.length offs = List.length ms ->
+  scan_props bin ms T cur offs ty = Ok (offs, ty).
+Proof.
+  induction T as [|p T IH]; intros cur offs ty Hf Hl; [reflexivity|].
+  inversion Hf as [|? ? Hp Hf']; subst. destruct p as [t n|]; [|destruct Hp].
+  cbn [scan_props]. rewrite scan_members_fresh by assumption. apply IH; assumption.
+Qed.
+
+Lemma scan_props_app_fresh bin ms T P : Forall (pname_fresh ms) T -> forall cur offs ty, List.length offs = List.length ms ->
+  scan_props bin ms (P ++ T) cur offs ty = scan_props bin ms P cur offs ty.
+Proof.
+  intros Hf. induction P as [|p P IH]; intros cur offs ty Hl.
+  - cbn [app]. rewrite scan_props_fresh by assumption. reflexivity.
+  - destruct p as [t n|]; [|reflexivity]. cbn [app scan_props].
+    pose proof (scan_members_length n ms offs ty cur t Hl) as L.
+    destruct (scan_members ms offs ty cur t n) as [offs' ty']. apply IH. exact L.
+Qed.
+
+Lemma build_vec_app_fresh bin attr ms P T : Forall (pname_fresh ms) T ->
+  build_vec bin attr ms (P ++ T) = build_vec bin attr ms P.
+Proof. intros H. unfold build_vec. rewrite scan_props_app_fresh by (try assumption; apply map_length). reflexivity. Qed.
+
+Lemma find_v1_fresh bin name T : forall cur, Forall (pname_fresh [name]) T -> find_v1 bin name T cur = Ok None.
+Proof.
+  induction T as [|p T IH]; intros cur Hf; [reflexivity|]. inversion Hf as [|? ? Hp Hf']; subst.
+  destruct p as [t n|]; [|destruct Hp]. cbn [find_v1]. rewrite seqb_neq by (intros ->; apply Hp; left; reflexivity).
+  apply IH. exact Hf'.
+Qed.
+Lemma find_v1_app_fresh bin name T P : Forall (pname_fresh [name]) T -> forall cur,
+  find_v1 bin name (P ++ T) cur = find_v1 bin name P cur.
+Proof.
+  intros Hf. induction P as [|p P IH]; intros cur.
+  - cbn [app]. rewrite find_v1_fresh by assumption. reflexivity.
+  - destruct p as [t n|]; [|reflexivity]. cbn [app find_v1]. destruct (seqb n name); [reflexivity|apply IH].
+Qed.
+
+Lemma fresh_sub ms ms' T : incl ms' ms -> Forall (pname_fresh ms) T -> Forall (pname_fresh ms') T.
+Proof.
+  intros Hi Hf. induction Hf as [|p T Hp _ IH]; constructor; [|exact IH].
+  destruct p; [|exact Hp]. intros H. apply Hp, Hi, H.
+Qed.
+
+Lemma In_firstn {A} k (l : list A) x : In x (firstn k l) -> In x l.
+Proof. revert l. induction k as [|k IH]; intros [|y l] H; cbn in *; try contradiction. destruct H as [->|H]; [left; reflexivity|right; apply IH, H]. Qed.
+
+Lemma build_group_app_fresh bin g P T : Forall (pname_fresh (g_members g)) T ->
+  build_group bin g (P ++ T) = build_group bin g P.
+Proof.
+  intros Hf. unfold build_group. destruct (g_members g) as [|m0 [|m1 ms]] eqn:E.
+  - rewrite build_vec_app_fresh by assumption. destruct (build_vec bin (g_attr g) [] P) as [[b|]|]; cbn [rbind]; try reflexivity.
+    destruct (g_ignorable_w g); [|reflexivity]. cbn [firstn]. apply build_vec_app_fresh. constructor || (eapply fresh_sub; [|eassumption]; intros x []).
+  - unfold build_v1. rewrite find_v1_app_fresh by assumption. reflexivity.
+  - rewrite build_vec_app_fresh by assumption. destruct (build_vec bin (g_attr g) (m0 :: m1 :: ms) P) as [[b|]|]; cbn [rbind]; try reflexivity.
+    destruct (g_ignorable_w g); [|reflexivity]. apply build_vec_app_fresh.
+    eapply fresh_sub; [|eassumption]. intros x Hx. eapply (In_firstn 3). exact Hx.
+Qed.
+
+Lemma build_groups_app_fresh bin gs P T : Forall (fun g => Forall (pname_fresh (g_members g)) T) gs ->
+  build_groups bin gs (P ++ T) = build_groups bin gs P.
+Proof.
+  induction gs as [|g gs IH]; intros H; [reflexivity|]. inversion H as [|? ? Hg Hgs]; subst.
+  cbn [build_groups]. rewrite build_group_app_fresh by assumption. rewrite IH by assumption. reflexivity.
+Qed.
+
+Lemma default_groups_fresh T : Forall (pname_fresh reserved_names) T ->
+  Forall (fun g => Forall (pname_fresh (g_members g)) T) default_groups.
+Proof.
+  intros H. apply Forall_forall. intros g Hg. eapply fresh_sub; [|exact H].
+  intros x Hx. unfold reserved_names. apply in_flat_map. exists g. split; assumption.
+Qed.
+
+Lemma add_unclaimed_claimed bin all P : forall rest bs,
+  forallb (fun p => existsb (fun b => claims b (prop_name p)) bs) P = true ->
+  add_unclaimed bin all (P ++ rest) bs = add_unclaimed bin all rest bs.
+Proof.
+  induction P as [|p P IH]; intros rest bs H; [reflexivity|].
+  cbn [forallb] in H. apply andb_prop in H. destruct H as [H1 H2].
+  cbn [app add_unclaimed]. rewrite H1. apply IH. exact H2.
+Qed.
+
+(* cursor after a list of properties / groups *)
+Definition adv (bin : bool) (cur : nat) (X : list prop) : nat :=
+  fold_left (fun c p => match p with PScalar t _ => advance bin c t | PList _ _ _ => c end) X cur.
+Definition gstep (bin : bool) (c : nat) (g : rgroup) : nat :=
+  if bin then (c + List.length (rg_names g) * sty_size (rg_ty g))%nat else (c + List.length (rg_names g))%nat.
+Definition gcur (bin : bool) (cur : nat) (gs : list rgroup) : nat := fold_left (gstep bin) gs cur.
+
+Lemma find_v1_hit bin n t : forall X B cur, Forall (pname_fresh [n]) X ->
+  find_v1 bin n (X ++ PScalar t n :: B) cur = Ok (Some (adv bin cur X, t)).
+Proof.
+  induction X as [|p X IH]; intros B cur Hf.
+  - cbn [app find_v1 adv fold_left]. rewrite seqb_refl. reflexivity.
+  - inversion Hf as [|? ? Hp Hf']; subst. destruct p as [t' n'|]; [|destruct Hp].
+    cbn [app find_v1]. rewrite seqb_neq by (intros ->; apply Hp; left; reflexivity).
+    rewrite IH by assumption. reflexivity.
+Qed.
+
+Lemma adv_app bin cur X Y : adv bin cur (X ++ Y) = adv bin (adv bin cur X) Y.
+Proof. unfold adv. apply fold_left_app. Qed.
+Lemma adv_group bin cur g : adv bin cur (group_props g) = gstep bin cur g.
+Proof.
+  unfold group_props, gstep. revert cur. induction (rg_names g) as [|x l IH]; intros cur.
+  - cbn. destruct bin; lia.
+  - cbn [map adv fold_left List.length]. fold (adv bin (advance bin cur (rg_ty g)) (map (PScalar (rg_ty g)) l)).
+    rewrite IH. unfold advance. destruct bin; lia.
+Qed.
+Lemma adv_props bin gs : forall cur, adv bin cur (vertex_props gs) = gcur bin cur gs.
+Proof.
+  induction gs as [|g gs IH]; intros cur; [reflexivity|].
+  unfold vertex_props. cbn [flat_map]. fold (vertex_props gs). rewrite adv_app, adv_group, IH. reflexivity.
+Qed.
+Lemma layout_app bin a : forall b c, layout bin (a ++ b) c = layout bin a c ++ layout bin b (gcur bin c a).
+Proof.
+  induction a as [|g a IH]; intros b c; [reflexivity|].
+  cbn [app layout gcur fold_left]. rewrite IH. reflexivity.
+Qed.
+Lemma gcur_app bin c a b : gcur bin c (a ++ b) = gcur bin (gcur bin c a) b.
+Proof. unfold gcur. apply fold_left_app. Qed.
+
+Definition scalar_group (g : rgroup) : Prop := rg_names g = [rg_attr g].
+
+Lemma vertex_props_app a b : vertex_props (a ++ b) = vertex_props a ++ vertex_props b.
+Proof. unfold vertex_props. apply flat_map_app. Qed.
+Lemma vertex_props_scalar g gs : scalar_group g -> vertex_props (g :: gs) = PScalar (rg_ty g) (rg_attr g) :: vertex_props gs.
+Proof. intros H. unfold vertex_props. cbn [flat_map]. unfold group_props. rewrite H. reflexivity. Qed.
+
+Lemma props_fresh_of_groups n gs : Forall scalar_group gs -> ~ In n (map rg_attr gs) -> Forall (pname_fresh [n]) (vertex_props gs).
+Proof.
+  induction gs as [|g gs IH]; intros Hs Hn; [constructor|]. inversion Hs as [|? ? Hg Hs']; subst.
+  rewrite vertex_props_scalar by assumption. constructor.
+  - cbn. intros [H|[]]. apply Hn. left. symmetry. exact H.
+  - apply IH; [assumption|]. intros H. apply Hn. right. exact H.
+Qed.
+
+Lemma claims_layout_scalars bin n gs : forall c, Forall scalar_group gs -> ~ In n (map rg_attr gs) ->
+  existsb (fun b => claims b n) (layout bin gs c) = false.
+Proof.
+  induction gs as [|g gs IH]; intros c Hs Hn; [reflexivity|]. inversion Hs as [|? ? Hg Hs']; subst.
+  cbn [layout existsb]. unfold claims at 1. cbn [b_names]. rewrite Hg. cbn [existsb].
+  rewrite seqb_neq by (intros ->; apply Hn; left; reflexivity). cbn [orb].
+  apply IH; [assumption|]. intros H. apply Hn. right. exact H.
+Qed.
+
+Lemma add_unclaimed_tail bin pregs bs0 : forall todo done,
+  Forall scalar_group (done ++ todo) -> NoDup (map rg_attr (done ++ todo)) ->
+  (forall g, In g (done ++ todo) -> Forall (pname_fresh [rg_attr g]) (vertex_props pregs)) ->
+  (forall g, In g todo -> existsb (fun b => claims b (rg_attr g)) bs0 = false) ->
+  add_unclaimed bin (vertex_props pregs ++ vertex_props (done ++ todo)) (vertex_props todo)
+                (bs0 ++ layout bin done (gcur bin 0 pregs))
+  = Ok (bs0 ++ layout bin (done ++ todo) (gcur bin 0 pregs)).
+Proof.
+  induction todo as [|g todo IH]; intros done Hs Hnd Hpre Hbs.
+  - rewrite app_nil_r. reflexivity.
+  - assert (Hg : scalar_group g) by (rewrite Forall_forall in Hs; apply Hs, in_or_app; right; left; reflexivity).
+    assert (Hsd : Forall scalar_group done) by (apply Forall_app in Hs; apply Hs).
+    rewrite map_app in Hnd. cbn [map] in Hnd. pose proof (NoDup_remove_2 _ _ _ Hnd) as Hnot.
+    assert (Hnd_done : ~ In (rg_attr g) (map rg_attr done)) by (intros H; apply Hnot, in_or_app; left; exact H).
+    assert (Hnd_todo : ~ In (rg_attr g) (map rg_attr todo)) by (intros H; apply Hnot, in_or_app; right; exact H).
+    rewrite (vertex_props_scalar g todo Hg). cbn [add_unclaimed prop_name].
+    rewrite existsb_app. rewrite (Hbs g (or_introl eq_refl)). rewrite claims_layout_scalars by assumption. cbn [orb].
+    unfold build_v1.
+    assert (Eall : vertex_props pregs ++ vertex_props (done ++ g :: todo)
+                   = (vertex_props pregs ++ vertex_props done) ++ PScalar (rg_ty g) (rg_attr g) :: vertex_props todo).
+    { rewrite vertex_props_app, (vertex_props_scalar g todo Hg), <- app_assoc. reflexivity. }
+    rewrite Eall. rewrite find_v1_hit.
+    2:{ apply Forall_app. split; [apply Hpre, in_or_app; right; left; reflexivity|apply props_fresh_of_groups; assumption]. }
+    cbn [rbind option_map]. rewrite <- Eall.
+    replace (done ++ g :: todo) with ((done ++ [g]) ++ todo) by (rewrite <- app_assoc; reflexivity).
+    rewrite adv_app, !adv_props.
+    assert (El : (bs0 ++ layout bin done (gcur bin 0 pregs)) ++
+                 [{| b_attr := rg_attr g; b_names := [rg_attr g]; b_offs := [gcur bin (gcur bin 0 pregs) done]; b_ty := rg_ty g; b_v1 := true |}]
+                 = bs0 ++ layout bin (done ++ [g]) (gcur bin 0 pregs)).
+    { rewrite layout_app, <- app_assoc. cbn [layout]. rewrite Hg. reflexivity. }
+    rewrite El. apply IH.
+    + rewrite <- app_assoc. exact Hs.
+    + rewrite <- app_assoc, map_app. cbn [map app]. exact Hnd.
+    + intros g' Hg'. apply Hpre. rewrite <- app_assoc in Hg'. exact Hg'.
+    + intros g' Hg'. apply Hbs. right. exact Hg'.
+Qed.
+
+Definition groups_claimed (bin : bool) (gs : list rgroup) : Prop :=
+  build_groups bin default_groups (vertex_props gs) = Ok (layout bin gs 0) /\
+  forallb (fun p => existsb (fun b => claims b (prop_name p)) (layout bin gs 0)) (vertex_props gs) = true.
+Lemma groups_claimed_bare bin (f : pw -> bool) : groups_claimed bin (map bare (filter f default_writers)).
+Proof.
+  unfold default_writers. cbn [filter].
+  destruct (f _), (f _), (f _), (f _), (f _), (f _), (f _), bin; split; vm_compute; reflexivity.
+Qed.
+Lemma groups_claimed_default bin m (f : pw -> bool) : groups_claimed bin (map (group_of m) (filter f default_writers)).
+Proof.
+  pose proof (groups_claimed_bare bin f) as [B1 B2]. unfold groups_claimed.
+  assert (S : map shape_of (map (group_of m) (filter f default_writers)) = map shape_of (map bare (filter f default_writers)))
+    by (rewrite !map_map; reflexivity).
+  rewrite (shape_props _ _ S), (shape_layout bin _ _ 0%nat S). split; assumption.
+Qed.
+
+Lemma existsb_seqb_In n l : existsb (seqb n) l = true -> In n l.
+Proof. intros H. apply existsb_exists in H. destruct H as (x & Hx & E). unfold seqb in E. apply String.eqb_eq in E. subst. exact Hx. Qed.
+Lemma not_In_existsb n l : ~ In n l -> existsb (seqb n) l = false.
+Proof. intros H. destruct (existsb (seqb n) l) eqn:E; [|reflexivity]. exfalso. apply H, existsb_seqb_In, E. Qed.
+
+Lemma default_names_reserved : forall w, In w default_writers -> incl (pw_names w) reserved_names.
+Proof.
+  assert (A : forallb (fun w => forallb (fun n => existsb (seqb n) reserved_names) (pw_names w)) default_writers = true)
+    by (vm_compute; reflexivity).
+  rewrite forallb_forall in A. intros w Hw n Hn. specialize (A w Hw). rewrite forallb_forall in A.
+  apply existsb_seqb_In, A, Hn.
+Qed.
+
+Lemma pregs_names_reserved m (f : pw -> bool) g : In g (map (group_of m) (filter f default_writers)) -> incl (rg_names g) reserved_names.
+Proof.
+  intros H. apply in_map_iff in H. destruct H as (w & <- & Hw). apply filter_In in Hw. destruct Hw as [Hw _].
+  cbn [group_of rg_names]. apply default_names_reserved, Hw.
+Qed.
+
+Lemma props_fresh_reserved n gs : ~ In n reserved_names -> (forall g, In g gs -> incl (rg_names g) reserved_names) ->
+  Forall (pname_fresh [n]) (vertex_props gs).
+Proof.
+  intros Hn Hg. unfold vertex_props. apply Forall_forall. intros p Hp. apply in_flat_map in Hp. destruct Hp as (g & Hin & Hp).
+  unfold group_props in Hp. apply in_map_iff in Hp. destruct Hp as (x & <- & Hx). cbn. intros [E|[]]. subst x.
+  apply Hn, (Hg g Hin), Hx.
+Qed.
+
+Lemma claims_layout_reserved bin n gs : forall c, ~ In n reserved_names -> (forall g, In g gs -> incl (rg_names g) reserved_names) ->
+  existsb (fun b => claims b n) (layout bin gs c) = false.
+Proof.
+  induction gs as [|g gs IH]; intros c Hn Hg; [reflexivity|].
+  cbn [layout existsb]. unfold claims at 1. cbn [b_names].
+  rewrite not_In_existsb by (intros H; apply Hn, (Hg g (or_introl eq_refl)), H). cbn [orb].
+  apply IH; [assumption|]. intros g' H. apply Hg. right. exact H.
+Qed.
+
+Lemma tail_props_fresh tail : Forall scalar_group tail -> Forall (fun g => ~ In (rg_attr g) reserved_names) tail ->
+  Forall (pname_fresh reserved_names) (vertex_props tail).
+Proof.
+  induction tail as [|g tail IH]; intros Hs Hr; [constructor|]. inversion Hs; inversion Hr; subst.
+  rewrite vertex_props_scalar by assumption. constructor; [assumption|apply IH; assumption].
+Qed.
+
+(* ply.ReadMesh builds exactly the laid-out readers on ply.Write's table followed by fresh user-named scalars *)
+Theorem readers_ok_default_user bin m (sel : pw -> bool) tail :
+  Forall scalar_group tail -> NoDup (map rg_attr tail) -> Forall (fun g => ~ In (rg_attr g) reserved_names) tail ->
+  readers_ok bin (map (group_of m) (filter sel default_writers) ++ tail).
+Proof.
+  intros Hs Hnd Hr. set (pregs := map (group_of m) (filter sel default_writers)).
+  destruct (groups_claimed_default bin m sel) as [B1 B2]. fold pregs in B1, B2.
+  unfold readers_ok, build_readers. rewrite vertex_props_app.
+  rewrite build_groups_app_fresh by (apply default_groups_fresh, tail_props_fresh; assumption).
+  rewrite B1. cbn [rbind]. rewrite add_unclaimed_claimed by exact B2.
+  pose proof (add_unclaimed_tail bin pregs (layout bin pregs 0) tail [] Hs Hnd) as A. cbn [app layout] in A.
+  rewrite app_nil_r in A. rewrite A.
+  - rewrite layout_app. reflexivity.
+  - intros g Hg. rewrite Forall_forall in Hr. apply props_fresh_reserved; [apply Hr, Hg|]. intros g'. apply pregs_names_reserved.
+  - intros g Hg. rewrite Forall_forall in Hr. apply claims_layout_reserved; [apply Hr, Hg|]. intros g'. apply pregs_names_reserved.
+Qed.
